@@ -449,6 +449,11 @@ Definition rel_agrees (model real : list (str * bool)) : bool :=
   forallb (fun m => match assoc (fst m) real with Some b => Bool.eqb b (snd m) | None => false end) model
   && forallb (fun r => match assoc (fst r) model with Some _ => true | None => false end) real.
 
+(* same, but says nothing about the listed paths (known finding F-PY-PICKLESTATE: the Python _MODEL_ pickle snapshots memo
+   caches of shared pydsdl objects, i.e. process state outside the [render] signature; prediction there is "may differ") *)
+Definition rel_agrees_except (skip : list str) (model real : list (str * bool)) : bool :=
+  rel_agrees (filter (fun m => negb (str_in (fst m) skip)) model) (filter (fun r => negb (str_in (fst r) skip)) real).
+
 Definition paths_agree (sf : src_facts) (tbl : list site) (c : cfg) (I : list tydecl) (e : env) (real : list str) : bool :=
   strs_eqb (sort (map slash (out_paths unit sf tbl render_unit e c I))) (sort real).
 
